@@ -737,12 +737,17 @@ class TextXMetaModel(DebugPrinter):
                 if pre_ref_resolution_callback:
                     pre_ref_resolution_callback(other_model)
 
+            # Models cached by earlier loads (global repo). They must survive
+            # if this load fails.
+            cached_before = []
+            if hasattr(self, "_tx_model_repository"):
+                cached_before = list(self._tx_model_repository.all_models)
+
             model = self._parser_blueprint.clone().get_model_from_str(
                 model_str, debug=debug, pre_ref_resolution_callback=kwargs_callback
             )
 
-            for p in self._model_processors:
-                p(model, self)
+            self._call_model_processors(model, cached_before)
         else:
             model = self.internal_model_from_file(
                 file_name,
@@ -828,12 +833,20 @@ class TextXMetaModel(DebugPrinter):
                 is_main_model=is_main_model,
             )
 
+        self._call_model_processors(model, cached_before)
+
+        return model
+
+    def _call_model_processors(self, model, cached_before):
+        """
+        Calls model processors. A model rejected by a model processor must
+        not stay cached in the (global) repository, same as for object
+        processor errors.
+        """
         try:
             for p in self._model_processors:
                 p(model, self)
         except:  # noqa
-            # A model rejected by a model processor must not stay cached in
-            # the (global) repository, same as for object processor errors.
             from textx.model import _abort_model_construction
             from textx.scoping import (
                 get_included_models,
@@ -852,8 +865,6 @@ class TextXMetaModel(DebugPrinter):
             for m in loaded_here:
                 _abort_model_construction(m)
             raise
-
-        return model
 
     def register_model_processor(self, model_processor):
         """
